@@ -15,11 +15,24 @@ from cola.linalg.inverse.cg import cg
 from cola.linalg.inverse.gmres import gmres
 from cola.linalg.trace.diagonal_estimation import hutchinson_diag_estimate
 
+from . import world as _world
+
+
+def _user_fn(f):
+    """A user-supplied scalar function: like an operator callback, it yields to the scheduler."""
+    def g(x):
+        _world.user_fn_yield()
+        return f(x)
+
+    g.__name__ = getattr(f, "__name__", "f")
+    return g
+
+
 UNARY = {
-    "log": np.log,
-    "exp": np.exp,
-    "id": lambda x: x,
-    "sq": lambda x: x * x,
+    "log": _user_fn(np.log),
+    "exp": _user_fn(np.exp),
+    "id": _user_fn(lambda x: x),
+    "sq": _user_fn(lambda x: x * x),
 }
 
 FNS = {}
